@@ -520,6 +520,8 @@ HIST_FAMILIES = {
                 ['correlation_length', 20.0]],
     'iso': [['T', 300.0], ['T', 2500.0]],
 }
+for _fam in HIST_FAMILIES:
+    HIST_FAMILIES[_fam] = HIST_FAMILIES[_fam] + [['__reinit__', 'wide'], ['__reinit__', 'narrow']]
 
 
 def hist_make(fam):
@@ -550,9 +552,12 @@ def hist_fn(case):
     N = 5
     P = np.logspace(6, -1, N)
 
+    grids = {'g0': P, 'wide': np.logspace(7, -4, N), 'narrow': np.logspace(5, 1, N)}
+    cur = {'P': P}
+
     def fresh():
         t = hist_make(fam)
-        t.initialize_profile(Planet(), N, P)
+        t.initialize_profile(Planet(), N, cur['P'])
         return t
 
     live = fresh()
@@ -560,8 +565,13 @@ def hist_fn(case):
     net = {}
     names = []
     for k, (name, value) in enumerate(case['hist']):
-        live.fitting_parameters()[name][3](value)
-        net[name] = value
+        if name == '__reinit__':
+            # the same profile object is initialised again on another pressure grid with the same layer count
+            cur['P'] = grids[value]
+            live.initialize_profile(Planet(), N, cur['P'])
+        else:
+            live.fitting_parameters()[name][3](value)
+            net[name] = value
         names.append(name)
         got = hist_eval(live)
         f = fresh()
